@@ -124,7 +124,11 @@ def run(tier):
     t0 = time.time()
     nq = 0
     for newline in (True, False):
-        r = q_split_line(N, 8, newline, T)
+        try:
+            r = q_split_line(N, 8, newline, T)
+        except Exception as e:  # noqa - the function under test no longer has a shape the shim can execute symbolically
+            rep.add(f"shim:split_resolved_shortcode:newline={newline}", "inconclusive", "shim-not-applicable", f"{type(e).__name__}: {e}"[:200])
+            continue
         nq += 2
         rep.count_query(r["no_match_branch"])
         rep.count_query(r["lossless"])
@@ -148,7 +152,11 @@ def run(tier):
         if not r["no_match_raises"]:
             rep.add(key + ":reject", "violation", "malformed-not-rejected", "the no-match branch of split_resolved_shortcode does not raise")
     Nc = 64 if thorough else 56
-    r = q_split_compounds(Nc, 3, T)
+    try:
+        r = q_split_compounds(Nc, 3, T)
+    except Exception as e:  # noqa
+        rep.add("shim:split_compounds", "inconclusive", "shim-not-applicable", f"{type(e).__name__}: {e}"[:200])
+        r = dict(parts="skipped", pre_lost="skipped")
     nq += 2
     rep.count_query(r["parts"])
     rep.count_query(r["pre_lost"])
@@ -157,6 +165,8 @@ def run(tier):
         txt = r["parts_cex"]
         got = PP.split_compounds(txt)
         rep.add(key + ":parts:" + repr(txt), "violation", "parts", f"{txt!r} -> {got!r}")
+    elif r["parts"] == "skipped":
+        pass
     elif r["parts"] == "unsat":
         rep.add(key + ":parts", "ok", "unsat", "both parts are exactly '{P1}' and '{P2}' within the bound")
     else:
@@ -170,7 +180,7 @@ def run(tier):
                     f"text between '{{' and the first part marker is in neither part: {txt!r} -> {(p1, p2)!r}", example=txt)
         else:
             rep.harness_error(f"split_compounds counterexample does not replay: {txt!r}")
-    elif r["pre_lost"] != "unsat":
+    elif r["pre_lost"] not in ("unsat", "skipped"):
         rep.add(key + ":pre", "inconclusive", "solver", r["pre_lost"])
     rep.solver_time = time.time() - t0
     # finite bundled domain: every bundled line through the real loader vs the independent splitter
@@ -203,6 +213,47 @@ def run(tier):
                 rep.add(f"insn:{name}", "violation", "bundled-load", "behaviors[name] differs from the line's body")
                 continue
             rep.add(f"line:{name}", "ok")
+    # bounded-exhaustive concrete differential (small alphabet, every string up to the bound) against the independent splitters:
+    # independent of the shape of the code under test, so it still decides when the shim cannot run a rewritten function
+    import itertools
+    alpha = ["a", "(", ")", ",", " ", "{", "}", ";"]
+    nconc = 0
+    bad_lines = 0
+    for L in range(1, 6 if thorough else 5):
+        for tup in itertools.product(alpha, repeat=L):
+            body = "".join(tup)
+            if body.strip() != body or not body:
+                continue
+            for name in ("a", "A2_x9"):
+                for nl in ("\n", ""):
+                    line = f"insn({name}, {body}){nl}"
+                    nconc += 1
+                    try:
+                        got = PP.split_resolved_shortcode(line)
+                    except Exception as e:  # noqa
+                        got = f"raised {type(e).__name__}"
+                    if got != (name, body):
+                        bad_lines += 1
+                        if bad_lines <= 5:
+                            rep.add(f"line:{line!r}", "violation", "lossy", f"{line!r}: real function gives {got!r}, expected {(name, body)!r}", example=line)
+    frag = ["a;", " ", "{b;}", "{{c}}", "if(x){y;}else{z;}", "", "f(1,2);", "{}"]
+    for p1a, p1b, p2 in itertools.product(frag, frag, frag[:6]):
+        p1 = p1a + p1b
+        if not p1:
+            continue
+        txt = "{" + MARK + "{" + p1 + "}" + MARK + p2 + "}"
+        nconc += 1
+        try:
+            got = PP.split_compounds(txt)
+        except Exception as e:  # noqa
+            got = f"raised {type(e).__name__}"
+        want = ("{" + p1 + "}", "{" + p2 + "}")
+        if got != want:
+            bad_lines += 1
+            if bad_lines <= 10:
+                rep.add(f"compound:{txt!r}", "violation", "parts", f"{txt!r}: real function gives {got!r}, expected {want!r}", example=txt)
+    rep.coverage["concrete_differential"] = dict(strings=nconc, disagreements=bad_lines,
+                                                 note="bounded-exhaustive enumeration over a small alphabet (not solved); complements the symbolic queries")
     # malformed bundled-like lines must raise
     for bad in ["insn A2_add, { }", "insn(A2_add { })", "", "insn(, { })", "xinsn(a, b", "insn(a,b)"]:
         try:
